@@ -29,10 +29,16 @@ func (e *Engine) doCall(st *State, fr *frame, in *ssa.Call, depth int) []Outcome
 				return outs
 			}
 		}
-		// method on a value with a known concrete pointer type defined in prism
-		if p, ok := recv.(*Ptr); ok && p.Cell != nil {
-			if fn := e.lookupMethod(types.NewPointer(p.Cell.Type), cc.Method); fn != nil && isPrismFn(fn) && len(fn.Blocks) > 0 {
-				return e.inline(st, fn, append([]Val{recv}, args...), nil, depth)
+		// method on a value whose concrete pointer type is known: dispatch statically
+		// (prism methods are inlined, library methods go through their models)
+		if p, ok := recv.(*Ptr); ok && p.Cell != nil && len(p.Path) == 0 {
+			if fn := e.lookupMethod(types.NewPointer(p.Cell.Type), cc.Method); fn != nil {
+				return e.staticCall(st, fn, append([]Val{recv}, args...), nil, rt, in, depth)
+			}
+		}
+		if o, ok := recv.(*Opaque); ok && o.Dyn != nil {
+			if fn := e.lookupMethod(o.Dyn, cc.Method); fn != nil {
+				return e.staticCall(st, fn, append([]Val{recv}, args...), nil, rt, in, depth)
 			}
 		}
 		iname := "invoke:" + name
